@@ -40,6 +40,9 @@ MUTATORS = {
     "renameGlyph", "renameLayer", "addAxis", "addSource", "addInstance", "addRule", "addVariableFont", "addAxisDescriptor", "addSourceDescriptor",
     "loadSourceFonts", "setGlyphOrder", "importXML", "write", "save", "close", "normalize",
 }
+# library methods that write into their FIRST ARGUMENT (fontMath: MathGlyph.extractGlyph(glyph), MathInfo.extractInfo(info),
+# MathKerning.extractKerning(font))
+ARG_MUTATING_METHODS = {"extractGlyph", "extractInfo", "extractKerning"}
 PEN_GETTERS = {"getPen", "getPointPen"}
 PEN_METHODS = {
     "moveTo", "lineTo", "curveTo", "qCurveTo", "closePath", "endPath", "addComponent", "beginPath", "addPoint",
@@ -437,21 +440,53 @@ class ReachingDefs:
         return state
 
 
+class ElemSet(set):
+    """the element set ("[]") of a container; `.np` holds the elements that were NOT added by a statement that
+    certainly ran before the container escaped from the function that allocated it (see Analysis.is_prekill_add)"""
+
+    __slots__ = ("np",)
+
+    def __init__(self):
+        super().__init__()
+        self.np = set()
+
+
 class FieldMap(dict):
-    """(object, attribute) -> points-to set, with an index of the attributes stored per object."""
+    """(object, attribute) -> points-to set, with an index of the attributes stored per object. A "version" object
+    (Obj.alias_of) shares all fields with its original except the one it owns."""
 
     def __init__(self):
         super().__init__()
         self.by_obj = defaultdict(set)
         self.keyed = defaultdict(set)  # object -> its "k:<constant key>" fields
 
+    def __getitem__(self, key):
+        o = key[0]
+        if o.alias_of is not None and key[1] != o.own:
+            key = (o.alias_of, key[1])
+        try:
+            return dict.__getitem__(self, key)
+        except KeyError:
+            return self.__missing__(key)
+
+    def __contains__(self, key):
+        o = key[0]
+        if o.alias_of is not None and key[1] != o.own:
+            key = (o.alias_of, key[1])
+        return dict.__contains__(self, key)
+
     def __missing__(self, key):
-        v = set()
-        self[key] = v
+        v = ElemSet() if key[1] == "[]" else set()
+        dict.__setitem__(self, key, v)
         self.by_obj[key[0]].add(key[1])
         if isinstance(key[1], str) and key[1].startswith("k:"):
             self.keyed[key[0]].add(key[1])
         return v
+
+    def keyed_of(self, o):
+        if o.alias_of is not None:
+            return self.keyed.get(o.alias_of, ())
+        return self.keyed.get(o, ())
 
     def clear(self):
         super().clear()
@@ -459,16 +494,21 @@ class FieldMap(dict):
         self.keyed.clear()
 
     def attrs_of(self, o):
+        if o.alias_of is not None:
+            return list((self.by_obj.get(o.alias_of, set()) - {o.own}) | self.by_obj.get(o, set()))
         return list(self.by_obj.get(o, ()))
 
 
 class Obj:
-    __slots__ = ("kind", "key", "py", "wraps", "through", "self_", "label", "target")
+    __slots__ = ("kind", "key", "py", "wraps", "through", "self_", "label", "target", "alias_of", "own", "shadow_of")
 
     def __init__(self, kind, key, py=None, label=None):
         self.kind = kind
         self.key = key
         self.py = py
+        self.alias_of = None  # a later "version" of that object: shares every field with it except `own` (see killed_clone)
+        self.own = None
+        self.shadow_of = None  # (object, field): a container standing for the containers in that field AFTER their contents were replaced
         self.wraps = set()  # objects it may reference (reads through it can reach them)
         self.target = set()  # objects that are MUTATED when this one is (a pen's output pen/glyph, a view's base)
         self.through = False  # mutating this object mutates `target`
@@ -580,6 +620,12 @@ class Analysis:
         self._folded = {}
         self.folded_calls = set()
         self.dunder_insts = defaultdict(set)
+        self.pre_add = False  # True while an add that certainly precedes the container's escape is recorded
+        self.broken_inv = set()  # (class, field) whose constructor-established invariant is violated by some other store
+        self.used_inv = set()
+        self._broken_seen = set()
+        self._chain_ok = {}
+        self.used_kill = {}
         self.narrow = []  # active narrowings: (ctx key, local name, filter)
         self.deferred = 0  # >0 while the body of a generator expression is evaluated (it runs later)
         self.open_globs = set()  # ids of module-level containers that analysed code mutates (contents not fixed)
@@ -696,6 +742,9 @@ class Analysis:
                     print("WATCH SRC ->", k[0].label, k[1], "at", self.cur.key[0] if self.cur else None)
         s |= new
         if len(s) != n0:
+            self.changed = True
+        if type(s) is ElemSet and not self.pre_add and not new <= s.np:
+            s.np |= new
             self.changed = True
 
     def wrap_py(self, o, name="?"):
@@ -1129,6 +1178,299 @@ class Analysis:
                     return False
         return False
 
+    # ---- a field whose containers are emptied and refilled by the constructor, before the object can be used ------------
+    # Pattern (all conditions are checked on the text of the analysed classes and on the fixpoint):
+    #   class C:  def __init__(self, ..):                       class D:  def m(self, new):
+    #                 ...            (a) self does not escape                  self.a[:] = <e>     (M) first statement:
+    #                 self.f = v     (A) top level, the only store to .f           ...                 the WHOLE contents of
+    #                 ...            (b) no use of self but plain stores                              the list self.a is replaced
+    #                 self.w()       (W) top level, unconditional
+    #             def w(self):  [if self.f is not None:] self.f.m(..)    first statement, nothing else before it
+    # Then for every instance P of C and every moment outside the window (A, W] of its constructor: P.f is None or an
+    # object whose list `a` has been replaced at least once (W runs before __init__ can return or let self escape, and
+    # .f is never stored again). Inside the window nothing can read P.f: P is not yet reachable from anywhere but the
+    # constructor's own `self`, and the statements in the window do not use `self` except to store other attributes.
+    # So the value stored by (A) may be represented by a VERSION v' of v ("v after m has run once"): an abstract object
+    # that is v for every attribute except `a`; v'.a is a separate abstract list whose elements are everything that is
+    # put into the real list EXCEPT by statements that certainly ran before the list escaped from the function that
+    # allocated it (those ran before any call of m on it, since m needs a reference to it) -- the refill by m, any
+    # later append. References to v obtained elsewhere keep seeing the original list object with ALL elements ever
+    # added (the refills included), so nothing is lost for them. Reads of self.a inside m itself also see the old
+    # contents. If any other store to .f of a C instance exists, the scheme is switched off (broken_inv) and redone.
+    def must_kill_attr(self, func):
+        """`a` if the body of method `func` starts (after a docstring) with `self.a[:] = <expr>`, else None"""
+        if hasattr(func, "_mk"):
+            return func._mk
+        res = None
+        node = func.node
+        if isinstance(node, ast.FunctionDef) and func.cls is not None and node.args.args and not node.args.vararg:
+            sf = node.args.args[0].arg
+            body = [st for st in node.body if not (isinstance(st, ast.Expr) and isinstance(st.value, ast.Constant))]
+            if body and isinstance(body[0], ast.Assign) and len(body[0].targets) == 1:
+                t = body[0].targets[0]
+                if isinstance(t, ast.Subscript) and isinstance(t.slice, ast.Slice) and t.slice.lower is None and t.slice.upper is None and t.slice.step is None \
+                        and isinstance(t.value, ast.Attribute) and isinstance(t.value.value, ast.Name) and t.value.value.id == sf \
+                        and not self._binds_in([ast.Expr(value=body[0].value)], sf) and self._self_only_attr_loads(body[0].value, sf):
+                    res = t.value.attr
+        func._mk = res
+        return res
+
+    @staticmethod
+    def _self_only_attr_loads(expr, sf):
+        """`self` occurs in expr only as `self.<attr>` being read (never passed on, never a method call on self)"""
+        pm = {}
+        for n in ast.walk(expr):
+            for ch in ast.iter_child_nodes(n):
+                pm[ch] = n
+        for n in ast.walk(expr):
+            if isinstance(n, (ast.Lambda, ast.NamedExpr, ast.Await, ast.Yield, ast.YieldFrom)):
+                return False
+            if isinstance(n, ast.Name) and n.id == sf:
+                par = pm.get(n)
+                if not (isinstance(par, ast.Attribute) and par.value is n and isinstance(par.ctx, ast.Load)):
+                    return False
+                gp = pm.get(par)
+                if isinstance(gp, ast.Call) and gp.func is par:
+                    return False
+        return True
+
+    def kill_wrapper(self, func):
+        """(f, m) if the body of method `func` starts with `self.f.m(..)` or `if self.f is not None: self.f.m(..)`"""
+        if hasattr(func, "_kw"):
+            return func._kw
+        res = None
+        node = func.node
+        if isinstance(node, ast.FunctionDef) and func.cls is not None and node.args.args:
+            sf = node.args.args[0].arg
+            body = [st for st in node.body if not (isinstance(st, ast.Expr) and isinstance(st.value, ast.Constant))]
+
+            def call_on_field(st):
+                if isinstance(st, ast.Expr) and isinstance(st.value, ast.Call) and isinstance(st.value.func, ast.Attribute):
+                    r = st.value.func.value
+                    c = st.value
+                    plain = all(isinstance(x, (ast.Name, ast.Attribute, ast.Constant)) and not any(isinstance(y, ast.Call) for y in ast.walk(x))
+                                for x in list(c.args) + [k_.value for k_ in c.keywords])
+                    if plain and isinstance(r, ast.Attribute) and isinstance(r.value, ast.Name) and r.value.id == sf:
+                        return r.attr, st.value.func.attr
+                return None
+
+            if body:
+                st = body[0]
+                got = call_on_field(st)
+                if got is None and isinstance(st, ast.If) and not st.orelse and len(st.body) == 1:
+                    t = st.test
+                    inner = call_on_field(st.body[0])
+                    if inner and isinstance(t, ast.Compare) and len(t.ops) == 1 and isinstance(t.ops[0], ast.IsNot) and isinstance(t.comparators[0], ast.Constant) \
+                            and t.comparators[0].value is None and isinstance(t.left, ast.Attribute) and isinstance(t.left.value, ast.Name) \
+                            and t.left.value.id == sf and t.left.attr == inner[0]:
+                        got = inner
+                res = got
+        func._kw = res
+        return res
+
+    def ctor_window(self, func, target):
+        """for the store `self.f = ..` (`target`) at the top level of the __init__ `func`: the name w of the method
+        called by the first later top-level statement `self.w()` such that self is not used in between (and not before
+        the store either, except to store attributes), else None"""
+        cache = func.__dict__.setdefault("_cw", {})
+        f = target.attr
+        if f in cache:
+            return cache[f]
+        res = None
+        node = func.node
+        if isinstance(node, ast.FunctionDef) and node.name == "__init__" and func.cls is not None and node.args.args \
+                and isinstance(target.value, ast.Name) and target.value.id == node.args.args[0].arg:
+            sf = node.args.args[0].arg
+            pm = self._parents(func)
+
+            def only_stores_self(st):
+                # every occurrence of `self` in the statement is the base of an attribute STORE target
+                for n in ast.walk(st):
+                    if isinstance(n, ast.Name) and n.id == sf:
+                        par = pm.get(n)
+                        if not (isinstance(par, ast.Attribute) and isinstance(par.ctx, ast.Store) and par.value is n):
+                            return False
+                    if isinstance(n, (ast.Return, ast.Yield, ast.YieldFrom, ast.Lambda, ast.FunctionDef)):
+                        return False
+                    if isinstance(n, ast.Call) and isinstance(n.func, ast.Name) and n.func.id in ("super", "vars", "locals", "globals"):
+                        return False
+                return True
+
+            stores = [n for n in ast.walk(node) if isinstance(n, ast.Attribute) and isinstance(n.ctx, (ast.Store, ast.Del)) and n.attr == f
+                      and isinstance(n.value, ast.Name) and n.value.id == sf]
+            stmt_a = pm.get(target)
+            if len(stores) == 1 and stores[0] is target and isinstance(stmt_a, ast.Assign) and pm.get(stmt_a) is node and len(stmt_a.targets) == 1:
+                i = next(j for j, st in enumerate(node.body) if st is stmt_a)
+                ok = all(only_stores_self(st) for st in node.body[:i]) and only_stores_self(stmt_a)
+                if ok:
+                    for st in node.body[i + 1:]:
+                        if isinstance(st, ast.Expr) and isinstance(st.value, ast.Call) and isinstance(st.value.func, ast.Attribute) \
+                                and isinstance(st.value.func.value, ast.Name) and st.value.func.value.id == sf and not st.value.args and not st.value.keywords:
+                            res = st.value.func.attr
+                            break
+                        if not only_stores_self(st):
+                            break
+        cache[f] = res
+        return res
+
+    def ctor_chain_ok(self, S, C):
+        """the constructors between the class S of the instance and C hand `self` on to C.__init__ untouched: each
+        overriding __init__ reaches its top-level `super().__init__(..)` call without using self otherwise"""
+        key = (S, C)
+        if key in self._chain_ok:
+            return self._chain_ok[key]
+        ok = True
+        mro = list(S.__mro__)
+        if C not in mro:
+            ok = False
+        else:
+            for kls in mro[: mro.index(C)]:
+                init = kls.__dict__.get("__init__")
+                if init is None:
+                    continue
+                fn = self.func_of(init) if isinstance(init, types.FunctionType) else None
+                if fn is None or not fn.node.args.args:
+                    ok = False
+                    break
+                sf = fn.node.args.args[0].arg
+                found = False
+                for st in fn.node.body:
+                    if isinstance(st, ast.Expr) and isinstance(st.value, ast.Call) and isinstance(st.value.func, ast.Attribute) and st.value.func.attr == "__init__" \
+                            and isinstance(st.value.func.value, ast.Call) and isinstance(st.value.func.value.func, ast.Name) and st.value.func.value.func.id == "super" \
+                            and not st.value.func.value.args and not any(isinstance(n, ast.Name) and n.id == sf for n in ast.walk(st)):
+                        found = True
+                        break
+                    if any(isinstance(n, ast.Name) and n.id == sf for n in ast.walk(st)) or any(isinstance(n, (ast.Return, ast.Yield, ast.YieldFrom)) for n in ast.walk(st)):
+                        break
+                if not found:
+                    ok = False
+                    break
+        self._chain_ok[key] = ok
+        return ok
+
+    def note_attr_store(self, o, attr):
+        """a store to attribute `attr` (None: unknown name) of o that is NOT the constructor store (A) of an invariant:
+        it invalidates the invariants that rely on .attr of o's class being written by the constructor only"""
+        if o.kind != "inst" or not isinstance(o.py, type):
+            return
+        for (cls_, f_) in list(self.used_inv):
+            if (attr is None or f_ == attr) and issubclass(o.py, cls_) and (cls_, f_) not in self.broken_inv:
+                self.broken_inv.add((cls_, f_))
+                self.changed = True
+        for (kcls, a), users in list(self.used_kill.items()):
+            if (attr is None or a == attr) and issubclass(o.py, kcls):
+                fn = self.cur.func if self.cur is not None else None
+                in_ctor = fn is not None and fn.cls is not None and getattr(fn.node, "name", "") in ("__init__", "__post_init__") and issubclass(o.py, fn.cls)
+                if not in_ctor:
+                    for u in users:
+                        if u not in self.broken_inv:
+                            self.broken_inv.add(u)
+                            self.changed = True
+
+    def ctor_versioned(self, P, target, val, ctx, node):
+        """the value to store for `base.f = val` on the instance P (see the comment above)"""
+        f = target.attr
+        C = ctx.func.cls
+        is_a = False
+        w = None
+        if C is not None and isinstance(P.py, type) and getattr(ctx.func.node, "name", None) == "__init__" and issubclass(P.py, C) \
+                and (C, f) not in self.broken_inv:
+            w = self.ctor_window(ctx.func, target)
+            is_a = w is not None and self.ctor_chain_ok(P.py, C)
+        if not is_a:
+            self.note_attr_store(P, f)
+            return val
+        k, wv = self.class_attr(P.py, w)
+        wf = self.func_of(wv) if isinstance(wv, types.FunctionType) else None
+        kw = self.kill_wrapper(wf) if wf is not None else None
+        if kw is None or kw[0] != f:
+            self.note_attr_store(P, f)
+            return val
+        out = set()
+        for v in val:
+            a = None
+            if v.kind == "inst" and v.alias_of is None:
+                k2, mv = self.class_attr(v.py, kw[1])
+                mf = self.func_of(mv) if isinstance(mv, types.FunctionType) else None
+                a = self.must_kill_attr(mf) if mf is not None else None
+            if a is None:
+                if v.kind not in ("NONE", "inst"):
+                    self.note_attr_store(P, f)
+                    return val  # something whose class is unknown may be stored: no invariant
+                out.add(v)
+                continue
+            self.used_kill.setdefault((v.py, a), set()).add((C, f))
+            out.add(self.killed_clone(v, a))
+        self.used_inv.add((C, f))
+        return out
+
+    def killed_clone(self, v, a):
+        key = ("killed", v.key, a)
+        o = self.objs.get(("inst", key))
+        if o is None:
+            o = self.obj("inst", key, v.py, f"{v.label}[{a} replaced]")
+            o.alias_of = v
+            o.own = a
+            lst = self.obj("cont", (key, "list"), None, f"list {a} of {v.label} after replacement")
+            lst.shadow_of = (v, a)
+            dict.__setitem__(self.F, (o, a), {lst})
+            self.F.by_obj[o].add(a)
+            self.changed = True
+        return o
+
+    def is_prekill_add(self, node, ctx):
+        """True if the call `x.append(..)` (`node`) adds to a container that cannot have escaped yet from the function
+        that allocated it: x is a local whose only definition reaching here is `x = []` / `x = {}` / `x = set()` ..., and
+        every use of x that is not itself a method call on x / len(x) / a subscript / an iteration lies textually after
+        the outermost loop (or statement) that contains this call -- so no other reference to the container exists."""
+        if ctx is None or not isinstance(node, ast.Call) or not isinstance(node.func, ast.Attribute) or not isinstance(node.func.value, ast.Name):
+            return False
+        xn = node.func.value
+        func = ctx.func
+        if isinstance(func.node, ast.Lambda):
+            return False
+        r = self.reach_of(func, xn)
+        if not r or len(r) != 1:
+            return False
+        (d,) = r
+        if not (isinstance(d, tuple) and len(d) == 2):
+            return False
+        pm = self._parents(func)
+        dstmt = None
+        for n in ast.walk(func.node):
+            if isinstance(n, ast.Assign) and len(n.targets) == 1 and isinstance(n.targets[0], ast.Name) and (n.targets[0].lineno, n.targets[0].col_offset) == d:
+                dstmt = n
+        if dstmt is None or not self._empty_container(dstmt.value):
+            return False
+        # the outermost statement below the function body that contains the call
+        top = node
+        while pm.get(top) is not None and pm[top] is not func.node:
+            top = pm[top]
+        end = (top.end_lineno, top.end_col_offset)
+        for n in ast.walk(func.node):
+            if isinstance(n, ast.Name) and n.id == xn.id and isinstance(n.ctx, ast.Load):
+                par = pm.get(n)
+                benign = False
+                if isinstance(par, ast.Attribute) and par.value is n and isinstance(pm.get(par), ast.Call) and pm[par].func is par:
+                    benign = True
+                elif isinstance(par, ast.Subscript) and par.value is n:
+                    benign = True
+                elif isinstance(par, (ast.For, ast.comprehension)) and par.iter is n:
+                    benign = True
+                elif isinstance(par, ast.Call) and isinstance(par.func, ast.Name) and par.func.id == "len" and self.lookup("len", ctx) is None:
+                    benign = True
+                if benign:
+                    continue
+                if (n.lineno, n.col_offset) <= end:
+                    return False
+                # (a use inside a nested function would run at an unknown time)
+                q = n
+                while pm.get(q) is not None and pm[q] is not func.node:
+                    q = pm[q]
+                    if isinstance(q, (ast.FunctionDef, ast.AsyncFunctionDef, ast.Lambda, ast.GeneratorExp)):
+                        return False
+        return True
+
     # ---- reaching definitions of local variables -------------------------------------------------------------------------
     def reach_of(self, func, node):
         """binding sites that can reach the read `node` (see ReachingDefs), or None when unknown"""
@@ -1409,6 +1751,9 @@ class Analysis:
                 continue
             elif o.kind == "inst":
                 out |= self.F[(o, name)] | self.F[(o, "*")]  # "*": stored by setattr() with a computed name
+                if o.alias_of is not None and name == o.own and ctx is not None and self.must_kill_attr(ctx.func) == name:
+                    # inside the replacing method itself the container still has its old contents
+                    out |= self.F[(o.alias_of, name)]
                 k, v = self.class_attr(o.py, name)
                 if k is not None:
                     out |= self.bind(v, o, k, name)
@@ -1698,7 +2043,7 @@ class Analysis:
                 continue
             elif o.kind == "glob":
                 out |= self.glob_elements(o) | self.F[(o, "[]")]
-                for a in self.F.keyed.get(o, ()):
+                for a in self.F.keyed_of(o):
                     out |= self.F[(o, a)]
             elif o.kind == "attrs":
                 for oo in (o.py, o):
@@ -1708,7 +2053,7 @@ class Analysis:
                 # (an instance whose class implements the container protocol itself: also what __getitem__ /
                 # __next__ return and what the iterator returned by __iter__ yields)
                 out |= self.elements_unkeyed(o)
-                for a in self.F.keyed.get(o, ()):
+                for a in self.F.keyed_of(o):
                     out |= self.F[(o, a)]
         return out
 
@@ -1774,16 +2119,34 @@ class Analysis:
                 if t is not None and issubclass(t, dict):
                     out |= self.F[(o, "keys")]
                     continue
+            if o.kind == "inst" and any("__iter__" in k.__dict__ for k in o.py.__mro__ if _modname(k).startswith(self.pkg)):
+                # the class implements iteration itself (e.g. a Mapping yielding its keys): exactly what __iter__ gives
+                out |= self.iter_protocol(o)
+                continue
             out |= self.elements({o})
         return out
 
     def elements_unkeyed(self, o):
+        """what a subscript / .get() / .values() of o can return (not what iterating it yields: iter_elements)"""
         out = set(self.F[(o, "[]")])
+        if o.shadow_of is not None:
+            # the containers of that field after their contents were replaced: everything that was put into them
+            # except by statements that certainly ran before they escaped from their allocating function
+            v, a = o.shadow_of
+            for c in dict.get(self.F, (v, a), ()):
+                if c is not o:
+                    out |= self.F[(c, "[]")].np
         if o.kind == "inst":
-            out |= self.F[(o, "dunder:__getitem__")] | self.F[(o, "dunder:__next__")] | self.F[(o, "dunder:__missing__")]
-            it = self.F[(o, "dunder:__iter__")]
-            if it:
-                out |= self.elements({x for x in it if x is not o})
+            out |= self.F[(o, "dunder:__getitem__")] | self.F[(o, "dunder:__missing__")]
+            if not hasattr(o.py, "__getitem__"):
+                out |= self.iter_protocol(o)  # a plain iterable: its "elements" are what it yields
+        return out
+
+    def iter_protocol(self, o):
+        out = set(self.F[(o, "dunder:__next__")])
+        it = self.F[(o, "dunder:__iter__")]
+        if it:
+            out |= self.iter_elements({x for x in it if x is not o})
         return out
 
     def rows(self, node, columns, what):
@@ -2040,6 +2403,10 @@ class Analysis:
 
     def method_call(self, o, name, node, args, kwargs, star_kw, ctx, callees):
         A = self.all_args(args, kwargs, star_kw)
+        if name in ARG_MUTATING_METHODS and o.kind in ("SRC", "GS", "ext", "cont", "glob") and args:
+            self.mutate_through(args[0][1], node, f".{name}(target)")
+        if name == "__init__" and o.kind == "inst":
+            self.flag(node, "explicit call of __init__ on an existing object")
         if o.kind in ("SRC", "GS"):
             if name in MUTATORS:
                 self.mutate({o}, node, f".{name}()")
@@ -2166,7 +2533,15 @@ class Analysis:
             return self.elements({o})
         if name in ("append", "add"):
             self.mutate({o}, node, f".{name}()")
-            self.add(el, A)
+            self.pre_add = self.is_prekill_add(node, self.cur)
+            try:
+                self.add(el, A)
+            finally:
+                self.pre_add = False
+            if o.shadow_of is not None:  # the same concrete container is also reachable through the original field
+                for c in dict.get(self.F, o.shadow_of, ()):
+                    if c is not o:
+                        self.add(self.F[(c, "[]")], A)
             return set()
         if name in ("extend", "update", "difference_update", "intersection_update", "symmetric_difference_update"):
             self.mutate({o}, node, f".{name}()")
@@ -2605,6 +2980,9 @@ class Analysis:
             return self.new_cont(node, self.iter_elements(A) | cb_results | {x for x in A if x.kind in ("func", "bound")}, name)
         if name == "next":
             return self.elements(args[0][1]) | (args[1][1] if len(args) > 1 else set()) if args else set()
+        if name in ("__setattr__", "__getattribute__", "__delattr__") and py is not None and getattr(py, "__objclass__", None) is object and args:
+            # object.__setattr__(obj, name, value) & co (frozen dataclasses): the plain builtins on `obj`
+            return self.lib_call({"__setattr__": "setattr", "__getattribute__": "getattr", "__delattr__": "delattr"}[name], None, node, args, kwargs, star_kw, ctx)
         if name == "getattr":
             out = set()
             names = self.strs(args[1][0], ctx, none_ok=True) if len(args) >= 2 and args[1][0] not in (None, "*") else None
@@ -2626,8 +3004,10 @@ class Analysis:
                         continue
                     if names is not None:
                         for nm in names:
+                            self.note_attr_store(o, nm)
                             self.add(self.F[(o, nm)], val)
                     else:
+                        self.note_attr_store(o, None)
                         self.add(self.F[(o, "*")], val)  # read back by EVERY attribute read of o
             return set()
         if name == "delattr":
@@ -3043,7 +3423,10 @@ class Analysis:
             self.mutate(base, target, f".{target.attr} = …")
             for o in base:
                 if o.kind not in ("SRC", "GS", "NONE"):
-                    self.add(self.F[(o, target.attr)], val)
+                    v2 = val
+                    if o.kind == "inst":
+                        v2 = self.ctor_versioned(o, target, val, ctx, node)
+                    self.add(self.F[(o, target.attr)], v2)
         elif isinstance(target, ast.Subscript):
             base = self.ev(target.value, ctx)
             self.ev(target.slice, ctx) if not isinstance(target.slice, ast.Slice) else None
@@ -3062,8 +3445,10 @@ class Analysis:
                     self.mutate({o.py}, target, "__dict__[…] = …")
                     if keys is not None:
                         for kk in keys:
+                            self.note_attr_store(o.py, kk)
                             self.add(self.F[(o.py, kk)], val)
                     else:
+                        self.note_attr_store(o.py, None)
                         self.add(self.F[(o.py, "*")], val)
                 elif keys is not None:
                     for kk in keys:
@@ -3342,6 +3727,8 @@ class Analysis:
         self.dunder_insts.clear()
         self.assumed_const_globs.clear()
         self.mutated_globs.clear()
+        self.used_inv.clear()
+        self.used_kill.clear()
         self.changed = True
 
     def flag(self, node, reason):
@@ -3394,9 +3781,11 @@ class Analysis:
             self._reset()
             self.solve_once(max_rounds)
             bad = (self.assumed_const_globs & self.mutated_globs) - self.open_globs
-            if not bad:
+            broke = {x for x in self.broken_inv if x not in self._broken_seen}
+            if not bad and not broke:
                 return
             self.open_globs |= bad
+            self._broken_seen |= broke
 
     def solve_once(self, max_rounds=60):
         rf = Func.__new__(Func)
@@ -3428,6 +3817,12 @@ class Analysis:
                     self.add(self.R[c.key], self.ev(node.body, c))
                 else:
                     self.run_body(node.body, c)
+            for o in [x for x in self.objs.values() if x.shadow_of is not None]:
+                own = dict.get(self.F, (o, "[]"))
+                if own:
+                    for c in list(dict.get(self.F, o.shadow_of, ())):
+                        if c is not o:
+                            self.add(self.F[(c, "[]")], own)
         self.rounds = rounds
         # the loop may also stop because the budget is exhausted: then the state is NOT a fixpoint and nothing
         # may be concluded from it
